@@ -228,4 +228,244 @@ theorem writeTLV_length (t : UInt8) (body : Bytes) :
 theorem readElemsFuel_nil (f : Nat) : readElemsFuel f [] = .ok [] := by
   cases f <;> simp [readElemsFuel]
 
+/-! ### SEQUENCE OF: reading back a concatenation of written elements -/
+
+/-- the element `readElem` reports for a written TLV -/
+def elemOf (t : UInt8) (body : Bytes) : Elem := ⟨hdrOf t body.length, body, writeTLV t body⟩
+
+theorem length_le_flatten {α} {x : List α} {l : List (List α)} (h : x ∈ l) : x.length ≤ l.flatten.length := by
+  induction l with
+  | nil => cases h
+  | cons y ys ih =>
+    simp only [List.flatten_cons, List.length_append]
+    rcases List.mem_cons.mp h with h | h
+    · subst h; omega
+    · have := ih h; omega
+
+theorem writeTLV_length_ge (t : UInt8) (body : Bytes) : body.length + 2 ≤ (writeTLV t body).length := by
+  have := encLen_length body.length
+  rw [writeTLV_length]; omega
+
+theorem readElemsFuel_writeTLVs {α} (t : α → UInt8) (b : α → Bytes) : ∀ (xs : List α) (f : Nat),
+    (∀ x ∈ xs, (t x).toNat % 32 ≠ 31 ∧ (b x).length < 2147483648) →
+    ((xs.map fun x => writeTLV (t x) (b x)).flatten).length ≤ f →
+    readElemsFuel f ((xs.map fun x => writeTLV (t x) (b x)).flatten) = .ok (xs.map fun x => elemOf (t x) (b x)) := by
+  intro xs
+  induction xs with
+  | nil => intro f _ _; simp [readElemsFuel_nil]
+  | cons x xs ih =>
+    intro f h hf
+    have hx := h x List.mem_cons_self
+    simp only [List.map_cons, List.flatten_cons, List.length_append] at hf ⊢
+    have h2 := writeTLV_length_ge (t x) (b x)
+    cases f with
+    | zero => omega
+    | succ f =>
+      have hne : (writeTLV (t x) (b x) ++ (xs.map fun x => writeTLV (t x) (b x)).flatten).isEmpty = false := by
+        simp [writeTLV]
+      simp only [readElemsFuel, hne]
+      rw [readElem_writeTLV _ _ _ hx.1 hx.2]
+      simp only [Bool.false_eq_true, if_false]
+      rw [ih f (fun y hy => h y (List.mem_cons_of_mem _ hy)) (by omega)]
+      rfl
+
+/-- **SEQUENCE OF reader ∘ writer**: a concatenation of written TLVs is read back element by element. -/
+theorem readElems_writeTLVs {α} (t : α → UInt8) (b : α → Bytes) (xs : List α)
+    (h : ∀ x ∈ xs, (t x).toNat % 32 ≠ 31 ∧ (b x).length < 2147483648) :
+    readElems ((xs.map fun x => writeTLV (t x) (b x)).flatten) = .ok (xs.map fun x => elemOf (t x) (b x)) :=
+  readElemsFuel_writeTLVs t b xs _ h (Nat.le_refl _)
+
+/-! ### INTEGER contents: big-endian value, two's complement, minimality -/
+
+theorem foldl256 (bs : Bytes) (a : Nat) :
+    bs.foldl (fun acc b => acc * 256 + b.toNat) a
+      = a * 256 ^ bs.length + bs.foldl (fun acc b => acc * 256 + b.toNat) 0 := by
+  induction bs generalizing a with
+  | nil => simp
+  | cons b t ih =>
+    simp only [List.foldl_cons, List.length_cons]
+    rw [ih, ih (0 * 256 + b.toNat)]
+    simp only [Nat.pow_succ, Nat.add_mul, Nat.zero_mul, Nat.zero_add, Nat.mul_assoc, Nat.mul_comm 256]
+    omega
+
+theorem natOfBytes_nil : natOfBytes [] = 0 := rfl
+
+theorem natOfBytes_cons (a : UInt8) (t : Bytes) :
+    natOfBytes (a :: t) = a.toNat * 256 ^ t.length + natOfBytes t := by
+  simp only [natOfBytes, List.foldl_cons]
+  rw [foldl256]; simp
+
+theorem natOfBytes_lt (bs : Bytes) : natOfBytes bs < 256 ^ bs.length := by
+  induction bs with
+  | nil => simp [natOfBytes]
+  | cons a t ih =>
+    rw [natOfBytes_cons, List.length_cons, Nat.pow_succ]
+    have := a.toNat_lt
+    have h : a.toNat * 256 ^ t.length ≤ 255 * 256 ^ t.length := Nat.mul_le_mul_right _ (by omega)
+    omega
+
+/-- **Two's complement decoding.**  A byte string of `k+1` octets whose unsigned value is the
+    residue of `v` modulo `256^(k+1)`, with `v` inside the `k+1`-octet signed range and outside the
+    `k`-octet one (minimality), passes `checkInteger` and decodes to `v`. -/
+theorem int_decode (bs : Bytes) (k : Nat) (v : Int) (hl : bs.length = k + 1)
+    (hu : (natOfBytes bs : Int) = if v < 0 then v + (256 : Int) ^ (k + 1) else v)
+    (hlo : -(128 * (256 : Int) ^ k) ≤ v) (hhi : v < 128 * (256 : Int) ^ k)
+    (hmin : ∀ j, k = j + 1 → v < -(128 * (256 : Int) ^ j) ∨ 128 * (256 : Int) ^ j ≤ v) :
+    checkInteger bs = true ∧ intOfBytes bs = v := by
+  have hP : (256 : Int) ^ k = ((256 ^ k : Nat) : Int) := by simp
+  have hP1 : (256 : Int) ^ (k + 1) = ((256 ^ k * 256 : Nat) : Int) := by simp [Int.pow_succ]
+  rw [hP] at hlo hhi
+  rw [hP1] at hu
+  have hPpos : 0 < 256 ^ k := Nat.pow_pos (by decide)
+  cases bs with
+  | nil => simp at hl
+  | cons a t =>
+    have hk : t.length = k := by simpa using hl
+    have hcons := natOfBytes_cons a t
+    have hN := natOfBytes_lt t
+    rw [hk] at hcons hN
+    have ha := a.toNat_lt
+    constructor
+    · -- minimality
+      cases t with
+      | nil => simp [checkInteger]
+      | cons b t' =>
+        have hj : k = t'.length + 1 := by simpa using hk.symm
+        have hm := hmin t'.length hj
+        have hQ : (256 : Int) ^ t'.length = ((256 ^ t'.length : Nat) : Int) := by simp
+        rw [hQ] at hm
+        have hcons2 := natOfBytes_cons b t'
+        have hN2 := natOfBytes_lt t'
+        have hPQ : 256 ^ k = 256 ^ t'.length * 256 := by rw [hj, Nat.pow_succ]
+        have hQpos : 0 < 256 ^ t'.length := Nat.pow_pos (by decide)
+        rw [hPQ] at hcons hlo hhi hu
+        rw [hcons2] at hcons
+        generalize 256 ^ t'.length = Q at *
+        generalize natOfBytes t' = N' at *
+        generalize natOfBytes (a :: b :: t') = U at *
+        simp only [checkInteger]
+        simp only [Bool.not_eq_true', decide_eq_false_iff_not]
+        rintro (⟨h0, hb1⟩ | ⟨h0, hb1⟩)
+        · have : b.toNat * Q ≤ 127 * Q := Nat.mul_le_mul_right _ (by omega)
+          rw [h0] at hcons
+          split at hu <;> omega
+        · have : 128 * Q ≤ b.toNat * Q := Nat.mul_le_mul_right _ hb1
+          rw [h0] at hcons
+          split at hu <;> omega
+    · simp only [intOfBytes]
+      have h2 : 2 ^ (8 * (a :: t).length) = 256 ^ k * 256 := by
+        rw [hl, Nat.pow_mul, Nat.pow_succ]
+      rw [h2]
+      generalize natOfBytes (a :: t) = U at *
+      generalize natOfBytes t = N at *
+      generalize 256 ^ k = P at *
+      by_cases h : a.toNat ≥ 128
+      · have : 128 * P ≤ a.toNat * P := Nat.mul_le_mul_right _ h
+        rw [if_pos h]
+        split at hu <;> omega
+      · have : a.toNat * P ≤ 127 * P := Nat.mul_le_mul_right _ (by omega)
+        rw [if_neg h]
+        split at hu <;> omega
+
+/-! ### base-128 (OID arcs, high tag numbers): reader ∘ writer -/
+
+theorem base128Aux_zero (f : Nat) (acc : Bytes) : base128Aux f 0 acc = acc := by
+  cases f <;> simp [base128Aux]
+
+/-- Reading the continuation octets `base128Aux` prepends: `k` octets are consumed, the accumulator
+    becomes `a * 128^k + m`. -/
+theorem readBase128_aux : ∀ (f m : Nat) (tl : Bytes), m ≤ f →
+    ∃ k, (k = 0 ↔ m = 0) ∧ (∀ j, k = j + 1 → 128 ^ j ≤ m) ∧
+      ∀ (g s a : Nat) (rest : Bytes), k ≤ g →
+        readBase128 g s a (base128Aux f m tl ++ rest) = readBase128 (g - k) (s + k) (a * 128 ^ k + m) (tl ++ rest) := by
+  intro f
+  induction f with
+  | zero =>
+    intro m tl hm
+    have : m = 0 := by omega
+    subst this
+    exact ⟨0, by simp, by intro j hj; omega, by intro g s a rest _; simp [base128Aux]⟩
+  | succ f ih =>
+    intro m tl hm
+    by_cases h0 : m = 0
+    · subst h0
+      exact ⟨0, by simp, by intro j hj; omega, by intro g s a rest _; simp [base128Aux]⟩
+    · have hle : m / 128 ≤ f := by omega
+      obtain ⟨k', hk0, hkp, hrd⟩ := ih (m / 128) (UInt8.ofNat (128 + m % 128) :: tl) hle
+      refine ⟨k' + 1, by simp [h0], ?_, ?_⟩
+      · intro j hj
+        have hjk : j = k' := by omega
+        subst hjk
+        cases j with
+        | zero => simp; omega
+        | succ i =>
+          have := hkp i rfl
+          rw [Nat.pow_succ]; omega
+      · intro g s a rest hg
+        simp only [base128Aux, h0, if_false]
+        rw [hrd g s a rest (by omega)]
+        have hg1 : g - k' = (g - (k' + 1)) + 1 := by omega
+        rw [hg1]
+        simp only [List.cons_append, readBase128]
+        have hb : (UInt8.ofNat (128 + m % 128)).toNat = 128 + m % 128 := by
+          simp [UInt8.toNat_ofNat']; omega
+        rw [hb]
+        have hc : ¬ (s + k' = 0 ∧ 128 + m % 128 = 128) := by
+          rintro ⟨h1, h2⟩
+          have : k' = 0 := by omega
+          have := hk0.mp this
+          omega
+        rw [if_neg hc]
+        have hd : ¬ (128 + m % 128 < 128) := by omega
+        simp only [hd, if_false]
+        congr 1
+        · rw [Nat.pow_succ]
+          have : (128 + m % 128) % 128 = m % 128 := by omega
+          rw [this]
+          have hm : m = m / 128 * 128 + m % 128 := by omega
+          generalize 128 ^ k' = P
+          rw [Nat.add_mul, Nat.mul_assoc]; omega
+
+/-- **base-128 reader ∘ writer**: every value up to `MaxInt32` written by `appendBase128Int` is read back by
+    `parseBase128Int`, consuming exactly the written octets. -/
+theorem readBase128_encBase128 (n : Nat) (rest : Bytes) (hn : n ≤ 2147483647) :
+    readBase128 5 0 0 (encBase128 n ++ rest) = .ok (n, rest) := by
+  unfold encBase128
+  obtain ⟨k, hk0, hkp, hrd⟩ := readBase128_aux (n + 1) (n / 128) [UInt8.ofNat (n % 128)] (by omega)
+  have hk4 : k ≤ 4 := by
+    apply Decidable.byContradiction
+    intro hc
+    have h5 : 128 ^ 4 ≤ 128 ^ (k - 1) := Nat.pow_le_pow_right (by decide) (by omega)
+    have := hkp (k - 1) (by omega)
+    have e : (128 : Nat) ^ 4 = 268435456 := by decide
+    omega
+  rw [hrd 5 0 0 rest (by omega)]
+  have hg : 5 - k = (4 - k) + 1 := by omega
+  rw [hg]
+  simp only [List.cons_append, List.nil_append, readBase128]
+  have hb : (UInt8.ofNat (n % 128)).toNat = n % 128 := by
+    simp [UInt8.toNat_ofNat']; omega
+  rw [hb]
+  have hc : ¬ (0 + k = 0 ∧ n % 128 = 128) := by omega
+  have hd : n % 128 < 128 := by omega
+  have he : (0 * 128 ^ k + n / 128) * 128 + n % 128 % 128 = n := by omega
+  rw [if_neg hc, he]
+  simp only [hd, if_true]
+  rw [if_neg (by omega)]
+
+theorem base128Aux_length (f m : Nat) (acc : Bytes) : acc.length ≤ (base128Aux f m acc).length := by
+  induction f generalizing m acc with
+  | zero => simp [base128Aux]
+  | succ f ih =>
+    simp only [base128Aux]
+    split
+    · exact Nat.le_refl _
+    · have := ih (m / 128) (UInt8.ofNat (128 + m % 128) :: acc)
+      simp only [List.length_cons] at this; omega
+
+theorem encBase128_length (n : Nat) : 1 ≤ (encBase128 n).length := by
+  unfold encBase128
+  have := base128Aux_length (n + 1) (n / 128) [UInt8.ofNat (n % 128)]
+  simpa using this
+
 end ZV.Der
